@@ -27,7 +27,8 @@ Definition problem_view (P : @lsoda_problem NumR) : R * arr R * R * arr R * R * 
 Ltac args_tac :=
   cbv [problem_view lsoda_problem_of y_start lp_t0 lp_y0 lp_tb lp_atol lp_rtol lp_first sn_o sn_f
        chunks9 firstn skipn concat app map c_1em6 c_1em4 c_1em1 mk_arr nth];
-  reflexivity.
+  first [ reflexivity
+        | fail "the generated LSODA constructor arguments differ from Model_minerals.lsoda_problem_of" ].
 
 Lemma lsoda_args_inst_1 (regime ph fb : Z) (Fd o f : RL) (t0 t1 : R) :
   length Fd = 9%nat -> length o = 9%nat -> length f = 1%nat ->
@@ -98,7 +99,8 @@ Ltac loop_tac upd_eq kupd :=
   zcases; cbv [solver_loop update_steps];
   first [ (cbv [upd_view update_history fst]; reflexivity)
         | (rewrite upd_view_ok; (etransitivity; [ | exact (f_equal Ok upd_eq) ]); unfold kupd;
-           open_lets; reflexivity) ].
+           open_lets; reflexivity)
+        | fail "the generated solver loop differs from Model_minerals.update_steps (update of the LAST vector, start-of-update reference, Err on a failing step)" ].
 
 (* m solver steps, step `fail` failing: the stored snapshot and the returned F are those of
    Model_minerals.update applied to the LAST state vector (earlier vectors are dead code), the sliding
@@ -178,7 +180,9 @@ Ltac bulk_tac :=
   open_lets_all;
   repeat match goal with H : (_, _, _) = (_, _, _) |- _ => injection H as -> -> -> end;
   repeat match goal with H : (_, _) = (_, _) |- _ => clear H end;
-  cbv [sn_o sn_f chunks9 firstn skipn concat app mk_arr nth]; reflexivity.
+  cbv [sn_o sn_f chunks9 firstn skipn concat app mk_arr nth];
+  first [ reflexivity
+        | fail "the generated update_all differs from Model_minerals.bulk_update / bulk_y0 (same starting F for every mineral, value = F of the last)" ].
 
 Lemma update_all_inst_1_2 (fail regime ph fb : Z) (chi : R) (Fd o1 f1 o2 f2 y1 y2 : RL) :
   length Fd = 9%nat -> length o1 = 9%nat -> length f1 = 1%nat -> length o2 = 9%nat -> length f2 = 1%nat ->
